@@ -374,6 +374,7 @@ def run_concrete(case: dict) -> dict:
     return obs
 
 
+C15_DBCALLS = {"connect": "connect", "insert": "insert_run_meta", "complete": "complete_run_meta", "disconnect": "disconnect"}
 OLD_NAMES = {-3: "run-20010101-000000.000003", -2: "run-20020202-000000.000002", -1: "run-20030303-000000.000001",
              1: "run-29970101-000000.000001", 2: "run-29980202-000000.000002", 3: "run-29990303-000000.000003"}
 FIXED_NOW = datetime(2024, 5, 6, 7, 8, 9, 123456)
@@ -572,9 +573,67 @@ def run_case(case: dict) -> dict:
                         raise asyncio.CancelledError()
                     raise sqlite3.OperationalError("disk I/O error")
                 DBHandler.disconnect = faulty_disconnect
+            # a fault at one await INSIDE a database call of the lifecycle: the k-th execute / executescript / commit that
+            # DBHandler.connect / insert_run_meta / complete_run_meta / disconnect awaits (counted per call, main task only) either
+            # raises sqlite3.OperationalError before the statement is handed to sqlite ("raise"), or Ctrl-C arrives while the statement
+            # is awaited ("cancel": the statement is queued for the sqlite thread and performed, CancelledError is delivered at the await)
+            dbf = case.get("dbfault")
+            undo = []
+            Env.dbcall, Env.dbidx, Env.dbfired = None, 0, False
+            if dbf:
+                import aiosqlite
+
+                def wrap_call(name):
+                    orig = getattr(DBHandler, name)
+
+                    async def call(self_, *a, **k):
+                        prev = (Env.dbcall, Env.dbidx)
+                        Env.dbcall, Env.dbidx = name, 0
+                        try:
+                            return await orig(self_, *a, **k)
+                        finally:
+                            Env.dbcall, Env.dbidx = prev
+                    setattr(DBHandler, name, call)
+                    undo.append((DBHandler, name, orig))
+
+                def wrap_op(name):
+                    orig = getattr(aiosqlite.Connection, name)
+
+                    def op(self_, *a, **k):
+                        # (a plain function: `async with conn.execute(...)` needs what the real method returns)
+                        if Env.dbcall == C15_DBCALLS[dbf["call"]] and asyncio.current_task() is main_task and not Env.dbfired:
+                            i = Env.dbidx
+                            Env.dbidx += 1
+                            if i == dbf["idx"]:
+                                Env.dbfired = True
+                                if dbf["mode"] == "raise":
+                                    async def failing():   # like the real thing the error arrives at the await, after a suspension
+                                        await asyncio.sleep(0)
+                                        raise sqlite3.OperationalError("database is locked")
+                                    return failing()
+                                # asyncio.run() turns only the FIRST SIGINT of a run into a cancellation of the main task; a second
+                                # one is its force-quit (KeyboardInterrupt raised wherever the main thread is), which is not the
+                                # event meant here: after an earlier SIGINT the cancellation is delivered by Task.cancel()
+                                h_ = signal.getsignal(signal.SIGINT)   # functools.partial(Runner._on_sigint, main_task=...)
+                                runner_ = getattr(getattr(h_, "func", h_), "__self__", None)
+                                first = getattr(runner_, "_interrupt_count", 0) == 0
+                                if how.get("cancel", "sigint") == "sigint" and first:
+                                    signal.raise_signal(signal.SIGINT)
+                                else:
+                                    main_task.cancel()
+                        return orig(self_, *a, **k)
+                    setattr(aiosqlite.Connection, name, op)
+                    undo.append((aiosqlite.Connection, name, orig))
+
+                for n in C15_DBCALLS.values():
+                    wrap_call(n)
+                for n in ("execute", "executescript", "commit"):
+                    wrap_op(n)
             try:
                 return await cmd.entry_point()
             finally:
+                for obj, n, orig in undo:
+                    setattr(obj, n, orig)
                 DBHandler.disconnect = real_disconnect
                 Env.snap_tp = [e.tester_present_task is None or e.tester_present_task.done() for e in Env.ecus]
                 if wlock == "interrupted":
@@ -682,14 +741,25 @@ def run_case(case: dict) -> dict:
         # ---- database ----------------------------------------------------------------------------
         dbh = cmd.db_handler
         obs["db_closed"] = dbh is None or dbh.connection is None
+        obs["dbfault_fired"] = bool(getattr(Env, "dbfired", False))
         if dbh is not None and dbh.connection is not None:
             try:  # leaked connection: stop its thread so the worker can go on
                 conn = dbh.connection
 
                 async def _close():
-                    await conn.close()
+                    await asyncio.wait_for(conn.close(), 3)
 
-                asyncio.run(_close())
+                # barrier: everything the run had queued for the sqlite thread is performed before the database is looked at
+                # (the thread dies when a statement finishes after the run's event loop is gone)
+                import time as _time
+                drained = threading.Event()
+                conn._tx.put_nowait((None, drained.set))
+                t_end = _time.time() + 5
+                while not drained.is_set() and conn._thread.is_alive() and _time.time() < t_end:
+                    _time.sleep(0.005)
+                conn._thread.join(0.05)
+                if conn._thread.is_alive():
+                    asyncio.run(_close())
             except Exception:
                 pass
         if case["db"]:
